@@ -104,3 +104,16 @@ Example C01_nonvacuous :
   snd (run_hist g_init nv_hist) = [Ok; Ok; Ok; Ok; Ok] /\
   g_grad (fst (run_hist g_init nv_hist)) = [Some [24; -16]%Z; Some [4; 4]%Z; Some [1; 1; 1; 1]%Z; Some [1]%Z].
 Proof. vm_compute. repeat split; reflexivity. Qed.
+
+(* (8) EVERY listed tensor, leaf or intermediate: after L.backward(seed) the stored gradient of tensor k pairs with a
+   perturbation of k alone to the induced perturbation of L in the graph cut at k -- it is dL/dk with k as a cut. *)
+From MG Require Import Proofs.StaleP.
+Theorem C01_every_tensor : forall st t seed st' k,
+  Inv st -> t < length (g_vals st) -> n_const st t = false -> do_backward st t seed = (st', Ok) ->
+  In k (order_of st t) ->
+  let s := match seed with Some g => g | None => repeat 1%Z (length (nth t (g_vals st) [])) end in
+  forall delta : nat -> zvec, (forall j, j <> k -> delta j = []) ->
+    dot Z 0%Z Z.add Z.mul (grad_vec st' k) (delta k)
+    = dot Z 0%Z Z.add Z.mul s (nth t (tangents Z Z.add delta (cut (g_eff st) k)) []).
+Proof. exact backward_intermediate. Qed.
+Print Assumptions C01_every_tensor.
